@@ -60,7 +60,8 @@ func runGate(c Case) interface{} {
 		return "ok", nil
 	}
 	tpl := docOf(codeNode("vpGate(id)", true, true))
-	eng, err := newEngine(EngineSpec{Files: map[string]string{"g": tpl}, RateLimit: n,
+	via, _ := c["via"].(string)
+	eng, err := newEngine(EngineSpec{Files: map[string]string{"g": tpl}, RateLimit: n, RateLimitVia: via,
 		Extra: map[string]flamingo.TemplateFunc{"vpGate": plainFunc(gateFn)}})
 	if err != nil {
 		return J{"class": "harness-error", "msg": err.Error()}
@@ -343,6 +344,13 @@ func genC09(r *Rng, n int, tier string, emit func(Case)) {
 				script = append(script, J{"op": "probe"})
 			}
 		}
-		emit(Case{"kind": "gate", "n": lim, "script": script, "model_needs_impl": true, "bucket": fmt.Sprintf("N=%d", lim), "nops": len(script)})
+		via := ""
+		switch rr.Intn(4) {
+		case 0:
+			via = "inject" // NewEngine pre-sets 8, the injected configuration value decides
+		case 1:
+			via = fmt.Sprintf("after:%d", []int{8, 1, 0, 3}[rr.Intn(4)]) // an earlier option must not survive a later one
+		}
+		emit(Case{"kind": "gate", "n": lim, "via": via, "script": script, "model_needs_impl": true, "bucket": fmt.Sprintf("N=%d", lim), "nops": len(script)})
 	}
 }
